@@ -54,6 +54,9 @@ PARAMS = [
     (0.25, math.inf),
     (1.0, math.inf),
     (0.0, math.inf),
+    (2.0, math.inf),
+    (30.0, math.inf),
+    (1e300, math.inf),
 ]
 K = ErrorClass.TRANSIENT
 
